@@ -8,6 +8,7 @@ verus! {
 //@include common/pbf_spec.vrs
 //@include common/pbf_blob.vrs
 //@include common/pbf_reader.vrs
+//@include common/varint_lemmas.vrs
 
 #[derive(Clone, Copy, PartialEq, Eq, Debug, Structural)]
 //@extract struct file="versatiles_core/src/types/byte_range.rs" name="ByteRange"
@@ -24,10 +25,6 @@ impl ValueReaderSlice {
 }
 
 // ---- the layout, written from the PMTiles v3 specification, independent of this code ---------------------------------------
-// length of the varint that starts at p: bytes with the continuation bit, then one without
-pub open spec fn vlen(d: Seq<u8>, p: int) -> int decreases d.len() - p {
-	if p < 0 || p >= d.len() { 1 } else if d[p] & 0x80 == 0 { 1 } else { 1 + vlen(d, p + 1) }
-}
 // position of the k-th varint of the directory (the 0-th is the number of entries)
 pub open spec fn vpos(d: Seq<u8>, k: int) -> int decreases k {
 	if k <= 0 { 0 } else { vpos(d, k - 1) + vlen(d, vpos(d, k - 1)) }
@@ -76,6 +73,148 @@ pub proof fn lemma_vpos_step(d: Seq<u8>, k: int)
 	ensures vpos(d, k + 1) == vpos(d, k) + vlen(d, vpos(d, k))
 { }
 
+
+// ---- round trip: the reader's decoding rules invert the writer's column layout (lemmas over the two contracts) -------------------
+//@include common/pmtiles_dir_spec.vrs
+// the concatenated varints of the first k values
+pub open spec fn cat(vals: Seq<nat>, k: int) -> Seq<u8> decreases k { if k <= 0 { Seq::empty() } else { cat(vals, k - 1) + enc(vals[k - 1]) } }
+pub proof fn lemma_cat_prefix(vals: Seq<nat>, k: int, m: int)
+	requires 0 <= k <= m
+	ensures cat(vals, k).len() <= cat(vals, m).len(), forall|j: int| 0 <= j < cat(vals, k).len() ==> cat(vals, m)[j] == cat(vals, k)[j]
+	decreases m - k
+{ if k < m { lemma_cat_prefix(vals, k, m - 1); } }
+// parsing a byte string that starts with cat(vals, m): the k-th varint sits at offset |cat(vals, k)| and carries vals[k]
+pub proof fn lemma_cat_parse(d: Seq<u8>, vals: Seq<nat>, m: int, k: int)
+	requires 0 <= k <= m <= vals.len(), cat(vals, m).len() <= d.len(), forall|j: int| 0 <= j < cat(vals, m).len() ==> d[j] == cat(vals, m)[j],
+		forall|i: int| 0 <= i < m ==> (#[trigger] vals[i]) <= u64::MAX,
+	ensures vpos(d, k) == cat(vals, k).len(), k < m ==> vfits(d, vpos(d, k), 10) && vval(d, k) == vals[k]
+	decreases k
+{
+	if k > 0 { lemma_cat_parse(d, vals, m, k - 1); }
+	if k < m {
+		let p = cat(vals, k).len() as int;
+		lemma_cat_prefix(vals, k + 1, m);
+		assert(cat(vals, k + 1) == cat(vals, k) + enc(vals[k]));
+		assert forall|j: int| 0 <= j < enc(vals[k]).len() implies d[p + j] == #[trigger] enc(vals[k])[j] by {
+			assert(cat(vals, k + 1)[p + j] == enc(vals[k])[j]);
+		}
+		if k > 0 {
+			// the position of varint k follows from varint k - 1
+			let q = cat(vals, k - 1).len() as int;
+			lemma_cat_prefix(vals, k, m);
+			assert(cat(vals, k) == cat(vals, k - 1) + enc(vals[k - 1]));
+			assert forall|j: int| 0 <= j < enc(vals[k - 1]).len() implies d[q + j] == #[trigger] enc(vals[k - 1])[j] by { assert(cat(vals, k)[q + j] == enc(vals[k - 1])[j]); }
+			lemma_varint_at_u64(d, q, vals[k - 1]);
+		}
+		lemma_varint_at_u64(d, p, vals[k]);
+	} else if k > 0 {
+		let q = cat(vals, k - 1).len() as int;
+		assert(cat(vals, k) == cat(vals, k - 1) + enc(vals[k - 1]));
+		assert forall|j: int| 0 <= j < enc(vals[k - 1]).len() implies d[q + j] == #[trigger] enc(vals[k - 1])[j] by { assert(cat(vals, k)[q + j] == enc(vals[k - 1])[j]); }
+		lemma_varint_at_u64(d, q, vals[k - 1]);
+	}
+}
+
+// the 4n + 1 values the writer's layout stores, in order
+pub open spec fn dir_vals(s: Seq<EntryV3>) -> Seq<nat> {
+	let n = s.len() as int;
+	Seq::new((4 * n + 1) as nat, |k: int|
+		if k == 0 { n as nat }
+		else if k <= n { (s[k - 1].tile_id - (if k >= 2 { s[k - 2].tile_id } else { 0 })) as nat }
+		else if k <= 2 * n { s[k - n - 1].run_length as nat }
+		else if k <= 3 * n { s[k - 2 * n - 1].range.length as nat }
+		else { off_code(s, k - 3 * n - 1) })
+}
+pub proof fn lemma_col_ids(s: Seq<EntryV3>, k: int)
+	requires 0 <= k <= s.len()
+	ensures cat(dir_vals(s), 1 + k) =~= enc(s.len()) + col_ids(s, k)
+	decreases k
+{
+	let vals = dir_vals(s);
+	if k == 0 { assert(cat(vals, 1) == cat(vals, 0) + enc(vals[0])); assert(cat(vals, 0) =~= Seq::<u8>::empty()); }
+	else { lemma_col_ids(s, k - 1); assert(cat(vals, 1 + k) == cat(vals, k) + enc(vals[k])); }
+}
+pub proof fn lemma_col_runs(s: Seq<EntryV3>, k: int)
+	requires 0 <= k <= s.len()
+	ensures cat(dir_vals(s), 1 + s.len() + k) =~= enc(s.len()) + col_ids(s, s.len() as int) + col_runs(s, k)
+	decreases k
+{
+	let vals = dir_vals(s); let n = s.len() as int;
+	if k == 0 { lemma_col_ids(s, n); }
+	else { lemma_col_runs(s, k - 1); assert(cat(vals, 1 + n + k) == cat(vals, n + k) + enc(vals[n + k])); }
+}
+pub proof fn lemma_col_lens(s: Seq<EntryV3>, k: int)
+	requires 0 <= k <= s.len()
+	ensures cat(dir_vals(s), 1 + 2 * s.len() + k) =~= enc(s.len()) + col_ids(s, s.len() as int) + col_runs(s, s.len() as int) + col_lens(s, k)
+	decreases k
+{
+	let vals = dir_vals(s); let n = s.len() as int;
+	if k == 0 { lemma_col_runs(s, n); }
+	else { lemma_col_lens(s, k - 1); assert(cat(vals, 1 + 2 * n + k) == cat(vals, 2 * n + k) + enc(vals[2 * n + k])); }
+}
+pub proof fn lemma_col_offs(s: Seq<EntryV3>, k: int)
+	requires 0 <= k <= s.len()
+	ensures cat(dir_vals(s), 1 + 3 * s.len() + k) =~= enc(s.len()) + col_ids(s, s.len() as int) + col_runs(s, s.len() as int) + col_lens(s, s.len() as int) + col_offs(s, k)
+	decreases k
+{
+	let vals = dir_vals(s); let n = s.len() as int;
+	if k == 0 { lemma_col_lens(s, n); }
+	else { lemma_col_offs(s, k - 1); assert(cat(vals, 1 + 3 * n + k) == cat(vals, 3 * n + k) + enc(vals[3 * n + k])); }
+}
+pub open spec fn dir_writable(s: Seq<EntryV3>) -> bool { s.len() <= 10_000_000_000 && sorted(s) && ranges_ok(s) }
+pub proof fn lemma_dir_parse(s: Seq<EntryV3>, k: int)
+	requires dir_writable(s), 0 <= k < 4 * s.len() + 1
+	ensures vfits(directory_bytes(s), vpos(directory_bytes(s), k), 10), vval(directory_bytes(s), k) == dir_vals(s)[k]
+{
+	let n = s.len() as int; let vals = dir_vals(s); let d = directory_bytes(s);
+	lemma_col_offs(s, n);
+	assert(d =~= cat(vals, 4 * n + 1));
+	assert forall|i: int| 0 <= i < 4 * n + 1 implies (#[trigger] vals[i]) <= u64::MAX by {
+		if 1 <= i <= n && i >= 2 { assert(s[i - 2].tile_id <= s[i - 1].tile_id); }
+	}
+	lemma_cat_parse(d, vals, 4 * n + 1, k);
+}
+pub proof fn lemma_dir_ids(s: Seq<EntryV3>, i: int)
+	requires dir_writable(s), -1 <= i < s.len()
+	ensures dir_id(directory_bytes(s), i) == (if i >= 0 { s[i].tile_id as int } else { 0 })
+	decreases i + 1
+{
+	if i >= 0 { lemma_dir_ids(s, i - 1); lemma_dir_parse(s, 1 + i); if i >= 1 { assert(s[i - 1].tile_id <= s[i].tile_id); } }
+}
+pub proof fn lemma_dir_offs(s: Seq<EntryV3>, i: int)
+	requires dir_writable(s), 0 <= i < s.len()
+	ensures dir_off(directory_bytes(s), i) == s[i].range.offset, dir_len(directory_bytes(s), i) == s[i].range.length, dir_n(directory_bytes(s)) == s.len()
+	decreases i
+{
+	let n = s.len() as int;
+	lemma_dir_parse(s, 0);
+	lemma_dir_parse(s, 1 + 2 * n + i);
+	lemma_dir_parse(s, 1 + 3 * n + i);
+	if i > 0 { lemma_dir_offs(s, i - 1); }
+}
+// round trip of the directory codec: what serialize_entries writes (directory_bytes, proved in unit pmtiles_dir) is a valid directory
+// for from_blob, and the decoding rules give back every entry field for field
+pub proof fn lemma_dir_roundtrip(s: Seq<EntryV3>)
+	requires dir_writable(s)
+	ensures dir_valid(directory_bytes(s)), dir_n(directory_bytes(s)) == s.len(),
+		forall|i: int| 0 <= i < s.len() ==> is_dir_entry(directory_bytes(s), #[trigger] s[i], i),
+{
+	let n = s.len() as int; let d = directory_bytes(s);
+	lemma_dir_parse(s, 0);
+	assert(vpos(d, 0) == 0);
+	assert forall|k: int| 0 <= k < 4 * n + 1 implies vfits(d, #[trigger] vpos(d, k), 10) by { lemma_dir_parse(s, k); }
+	assert forall|i: int| 0 <= i < n implies is_dir_entry(d, #[trigger] s[i], i) by { lemma_dir_ids(s, i); lemma_dir_offs(s, i); lemma_dir_parse(s, 1 + n + i); }
+	assert forall|i: int| 0 <= i < n implies (#[trigger] dir_id(d, i)) <= u64::MAX by { lemma_dir_ids(s, i); }
+	assert forall|i: int| 0 <= i < n implies 0 <= (#[trigger] dir_off(d, i)) <= u64::MAX by { lemma_dir_offs(s, i); }
+}
+// corollary: whatever from_blob returns for the bytes serialize_entries wrote (it cannot be Err: dir_valid) is the sequence that was written
+pub proof fn lemma_dir_roundtrip_result(s: Seq<EntryV3>, r: Seq<EntryV3>)
+	requires dir_writable(s), r.len() == dir_n(directory_bytes(s)), forall|i: int| 0 <= i < r.len() ==> is_dir_entry(directory_bytes(s), #[trigger] r[i], i)
+	ensures r =~= s
+{
+	lemma_dir_roundtrip(s);
+	assert forall|i: int| 0 <= i < s.len() implies r[i] == s[i] by { assert(is_dir_entry(directory_bytes(s), s[i], i)); assert(is_dir_entry(directory_bytes(s), r[i], i)); }
+}
 impl ByteRange {
 //@extract fn file="versatiles_core/src/types/byte_range.rs" scope="impl ByteRange" name="empty"
 //@ret r
